@@ -7,9 +7,9 @@ Every function mirrors the Rust function named in its doc comment; `u64` arithme
 made explicit with `% 2^64`.
 Imports only the generated constants (tools/translate.py), so the driver links.
 -/
-import ArrowModel.Generated.Buffer
+import ArrowModel.Generated.C19
 namespace ArrowModel.C19
-open ArrowModel.Generated.Buffer
+open ArrowModel.Generated.C19
 
 /-- truncation to a `u64` -/
 def u64 (x : Nat) : Nat := x % 2 ^ 64
